@@ -139,35 +139,26 @@ def run(ctx, chk):
     chk.floor("R-PANIC-2", "functions reachable from main", len(reach), 200)
     c04.discharge(ctx, chk, g)
 
-    RD = chk.rule("R-ERRMSG", "the Display impls of the parser State, the DecodeError and the loader Error have an arm for every variant "
-                  "and their format strings contain no newline (one-line message)")
-    for mod, ty, fname in (("rspirv::binary::parser", "State", "fmt"), ("rspirv::dr::loader", "Error", "describe"), ("rspirv::binary::autogen_error", "Error", "fmt")):
+    RD = chk.rule("R-ERRMSG", "the Display impls of the parser State, the DecodeError and the loader Error, and the methods of these types they may call, contain no "
+                  "string literal with a newline (one-line message); that every variant has an arm is the compiler's exhaustiveness check")
+    for mod, ty in (("rspirv::binary::parser", "State"), ("rspirv::dr::loader", "Error"), ("rspirv::binary::autogen_error", "Error")):
         try:
-            en = ctx.rspirv.item(mod, "enum", ty)
+            ctx.rspirv.item(mod, "enum", ty)
         except Anchor:
             chk.bad(RD, "%s::%s" % (mod, ty), "enum not found", None)
             continue
-        fns = [x for x in ctx.rspirv.fns(mod, ty) if x["name"] == fname and (fname != "fmt" or (x.get("trait") or "").endswith("Display"))]
-        if len(fns) != 1:
-            chk.bad(RD, "%s::%s::%s" % (mod, ty, fname), "expected one %s, found %d" % (fname, len(fns)), None)
+        disp = [x for x in ctx.rspirv.fns(mod, ty) if x["name"] == "fmt" and (x.get("trait") or "").endswith("Display")]
+        if len(disp) != 1:
+            chk.bad(RD, "%s::%s" % (mod, ty), "expected one Display impl, found %d" % len(disp), None)
             continue
-        ms = [n for n in walk(fns[0]["body"]) if n[0] == "match"]
-        covered = set()
-        wild = False
-        if ms:
-            for pat, guard, body in ms[0][2]:
-                for p in (pat[1] if pat[0] == "p_or" else [pat]):
-                    if p[0] == "p_wild":
-                        wild = True
-                    q = path_of(p) or (p[1] if p[0] in ("p_ts", "p_struct") else None)
-                    if q:
-                        covered.add(q.split("::")[-1])
-        names = {v["name"] for v in en["variants"]}
-        strs = [x[2] for x in walk(fns[0]["body"]) if x[0] == "lit" and x[1] == "str"]
-        strs += [x[2] for x in walk(fns[0]["body"]) if x[0] == "macro" and x[1] == "format_args"]
+        # the impl's fmt, the type's other methods and the module's free functions (helpers the rendering may go through)
+        fns = disp + [x for x in ctx.rspirv.fns(mod, ty, False)] + [x for x in ctx.rspirv.fns(mod) if x["name"] != "main"]
+        strs = []
+        for f_ in fns:
+            strs += [x[2] for x in walk(f_["body"]) if x[0] == "lit" and x[1] == "str"]
+            strs += [x[2] for x in walk(f_["body"]) if x[0] == "macro" and x[1] == "format_args"]
         nl = [s_ for s_ in strs if "\\n" in s_ or "\n" in s_]
-        chk.check(RD, (names <= covered or wild) and not nl, "%s::%s" % (mod.split("::")[-1], ty),
-                  "variants without an arm: %s; strings with newline: %s" % (sorted(names - covered), nl[:2]), raw.where(fname, ty), sample=sorted(covered)[:5])
+        chk.check(RD, not nl, "%s::%s" % (mod.split("::")[-1], ty), "strings with newline: %s" % nl[:2], raw.where("fmt", ty), sample=len(strs))
     chk.analysed.update({"reachable_from_main": len(reach)})
 
 
